@@ -377,6 +377,146 @@ static void huge_avail_out(void)
 	munmap(map, maplen);
 }
 
+/* very long constant runs through isal_deflate_stateless: an input that BEGINS with >= 4096 equal 00 / ff bytes takes a dedicated writer whose
+ * output size grows with the run (about one byte per 1032 input bytes) - at 64 MiB .. 1 GiB (thorough: 4 GiB - 1) of run its space estimate
+ * passes 2^16 and 2^22. Input: zero-page-backed mapping (00) or a filled one (ff, up to 128 MiB). Output: an exact-size mapping ending at an
+ * inaccessible page, sizes 0 / 16 / 40 / 100 / 4096 / need-1 / need / need+1 / need+24 / need+300 (need = size produced with ample room).
+ * A call returns COMP_OK (then: at most avail_out bytes, a stream that decodes to the run, consistent counters) or STATELESS_OVERFLOW
+ * (all these sizes are far below the documented bound, so refusing is allowed even when the bytes would fit); the ample-room stream must
+ * decode (zlib) to the run; never a byte beyond avail_out. */
+#include <zlib.h>
+static int run_decodes(const uint8_t *strm, size_t n, int gz, uint8_t fill, uint64_t want, int final, char *why, size_t wl)
+{
+	static uint8_t *ob;
+	if (!ob)
+		ob = malloc(1 << 22);
+	z_stream z;
+	memset(&z, 0, sizeof z);
+	inflateInit2(&z, gz == IGZIP_GZIP ? 31 : gz == IGZIP_ZLIB ? 15 : -15);
+	z.next_in = (uint8_t *)strm;
+	z.avail_in = (uInt)n;
+	uint64_t total = 0;
+	int zr = Z_OK;
+	for (;;) {
+		z.next_out = ob;
+		z.avail_out = 1 << 22;
+		zr = inflate(&z, Z_NO_FLUSH);
+		size_t got = (1 << 22) - z.avail_out;
+		for (size_t i = 0; i < got; i++)
+			if (ob[i] != fill) {
+				snprintf(why, wl, "decoded byte %llu is %02x, input is a run of %02x", (unsigned long long)(total + i), ob[i], fill);
+				inflateEnd(&z);
+				return 0;
+			}
+		total += got;
+		if (zr != Z_OK || (got == 0 && z.avail_in == 0))
+			break;
+	}
+	inflateEnd(&z);
+	if (total != want || (final ? zr != Z_STREAM_END : (zr != Z_OK && zr != Z_BUF_ERROR)) || z.avail_in) {
+		snprintf(why, wl, "zlib: status %d after %llu of %llu bytes, %u stream bytes unread", zr, (unsigned long long)total, (unsigned long long)want, z.avail_in);
+		return 0;
+	}
+	return 1;
+}
+static void huge_runs(void)
+{
+	static const uint64_t LS[] = { 1 << 20, 67633153, 67635217, 1 << 27, (1 << 28) + 5, (1ull << 30) + 77, (1ull << 32) - 1 };
+	static const int cpus[] = { CPU_BASE, CPU_AVX2, CPU_AVX512G2 };
+	static const int gzs[] = { IGZIP_DEFLATE, IGZIP_GZIP, IGZIP_ZLIB };
+	size_t maplen = (1ull << 32) + (1 << 20);
+	uint8_t *zero = mmap(NULL, maplen, PROT_READ, MAP_PRIVATE | MAP_ANONYMOUS | MAP_NORESERVE, -1, 0);
+	uint8_t *ff = malloc((1 << 27) + 64);
+	static uint8_t lb[ISAL_DEF_LVL3_DEFAULT];
+	static uint8_t *ample;
+	if (zero == MAP_FAILED || !ff) {
+		v_not_exhaustive("huge-runs part skipped: cannot reserve the input mappings");
+		return;
+	}
+	memset(ff, 0xff, (1 << 27) + 64);
+	if (!ample)
+		ample = malloc(8 << 20);
+	char key[300], why[200];
+	uint64_t unit = 8800000;
+	for (int li = 0; li < (v_thorough ? 7 : 6); li++)
+		for (int fill = 0; fill < 2; fill++)
+			for (int level = 0; level <= 3; level++)
+				for (int gi = 0; gi < 3; gi++) {
+					uint64_t L = LS[li];
+					if (fill && L > (1 << 27))
+						continue;
+					if (!v_mine(unit++))
+						continue;
+					if (nfail > 20 || v_deadline_hit())
+						goto done;
+					int cpu = cpus[(li + level + gi) % 3], fl = (li + level + gi + fill) & 1 ? FULL_FLUSH : NO_FLUSH, eos = fl == NO_FLUSH || (level & 1);
+					cpu_set_level(cpu);
+					const uint8_t *in = fill ? ff : zero;
+					size_t need = 0;
+					long aos[11] = { -1, 0, 16, 40, 100, 4096, 0, 0, 0, 0, 0 };
+					for (int ai = 0; ai < 11; ai++) {
+						if (ai == 6) { aos[6] = (long)need - 1; aos[7] = (long)need; aos[8] = (long)need + 1; aos[9] = (long)need + 24; aos[10] = (long)need + 300; }
+						size_t ao = aos[ai] < 0 ? (8 << 20) : (size_t)aos[ai];
+						uint8_t *out = aos[ai] < 0 ? ample : g_alloc(ao, G_END);
+						struct isal_zstream s;
+						isal_deflate_stateless_init(&s);
+						s.level = level; s.level_buf = level ? lb : NULL; s.level_buf_size = level ? lvl_default[level] : 0; s.gzip_flag = gzs[gi];
+						s.flush = fl; s.end_of_stream = eos;
+						s.next_in = (uint8_t *)in; s.avail_in = (uint32_t)L;
+						s.next_out = out; s.avail_out = (uint32_t)ao;
+						snprintf(key, sizeof key, "isal_deflate_stateless run of %llu x %02x level=%d wrapper=%s flush=%s end_of_stream=%d cpu=%s avail_out=%s%ld", (unsigned long long)L, fill ? 0xff : 0, level, gz_name[gzs[gi]],
+							 flush_name[fl], eos, cpu_level_name[cpu], aos[ai] < 0 ? "ample" : ai >= 6 ? "need" : "", aos[ai] < 0 ? 0 : ai >= 6 ? aos[ai] - (long)need : aos[ai]);
+						int r = -999;
+						if (V_TRY()) {
+							r = isal_deflate_stateless(&s);
+							V_END();
+						} else {
+							v_violation(key, "%s", v_fault_desc());
+							nfail++;
+							g_reset();
+							continue;
+						}
+						v_eval();
+						size_t produced = s.next_out - out;
+						if (aos[ai] < 0) {
+							if (r != COMP_OK || s.avail_in || produced != s.total_out || s.avail_out != (8 << 20) - produced) {
+								v_violation(key, "with ample room: return %d, avail_in %u, total_out %u, %zu bytes written", r, s.avail_in, s.total_out, produced);
+								nfail++;
+								break;
+							}
+							if (!run_decodes(ample, produced, gzs[gi], fill ? 0xff : 0, L, eos, why, sizeof why)) {
+								v_violation(key, "%s", why);
+								nfail++;
+								break;
+							}
+							need = produced;
+						} else if (r == COMP_OK) {
+							if (produced > ao || s.avail_out != ao - produced || s.total_out != produced || s.avail_in) {
+								v_violation(key, "COMP_OK with avail_out %zu: total_out %u, avail_out now %u, %zu bytes written, avail_in %u", ao, s.total_out, s.avail_out, produced, s.avail_in);
+								nfail++;
+							} else if ((produced != need || memcmp(out, ample, need)) && !run_decodes(out, produced, gzs[gi], fill ? 0xff : 0, L, eos, why, sizeof why)) {
+								/* (a different stream than with ample room is fine - with little room the call may fall back to the ordinary compressor - if it decodes) */
+								v_violation(key, "COMP_OK with %zu bytes, but: %s", produced, why);
+								nfail++;
+							}
+						} else if (r != STATELESS_OVERFLOW) { /* (refusing although the bytes would fit is allowed below the documented bound: the writer reserves slack) */
+							v_violation(key, "return %d with avail_out %zu (the stream takes %zu bytes)", r, ao, need);
+							nfail++;
+						}
+						if (g_check()) {
+							v_violation(key, "%s", g_last_damage());
+							nfail++;
+						}
+						g_reset();
+						v_count("huge_run_calls", 1);
+					}
+					v_nontrivial(v_mix(0x7a11 + li * 8 + level, fill * 4 + gi));
+				}
+done:
+	munmap(zero, maplen);
+	free(ff);
+}
+
 int main(int argc, char **argv)
 {
 	v_init(argc, argv, "C10");
@@ -522,6 +662,8 @@ int main(int argc, char **argv)
 		invalid_params();
 	if ((!v_part || !strcmp(v_part, "params")) && v_shard == 1 % v_nshards)
 		huge_avail_out();
+	if (!v_part || !strcmp(v_part, "params"))
+		huge_runs();
 	if (v_shard == 0) {
 		v_sample("stateless level=2 wrapper=gzip input=shape:xs:300 avail_out=bound-1 -> STATELESS_OVERFLOW; avail_out=bound -> COMP_OK, <= bound bytes, decodes to the input; output page after avail_out is PROT_NONE");
 		v_sample("termination graph input=abc*6 level=3 wrapper=zlib: all sequences of output chunk sizes from {1,2,7,8,9,15,16,17,rest} with end_of_stream set reach ZSTATE_END");
